@@ -15,34 +15,57 @@ type KV struct {
 // Map is the ordered-map reference model M.
 type Map struct {
 	Cmp    comparer.Comparer
-	m      map[string][]byte
-	sorted []string // cache; nil when stale
+	m      map[string][]byte // canonical key -> value
+	actual map[string]string // canonical key -> key bytes of the newest write (only for non-injective comparers)
+	sorted []string          // cache of canonical keys in order; nil when stale
+}
+
+func (m *Map) ck(k []byte) string { return string(CanonKey(m.Cmp, k)) }
+
+// akey returns the key bytes the DB presents for canonical key c: those of the newest write of the class.
+func (m *Map) akey(c string) []byte {
+	if m.actual != nil {
+		return []byte(m.actual[c])
+	}
+	return []byte(c)
 }
 
 // NewMap creates an empty model ordered by cmp.
 func NewMap(cmp comparer.Comparer) *Map {
-	return &Map{Cmp: cmp, m: map[string][]byte{}}
+	mm := &Map{Cmp: cmp, m: map[string][]byte{}}
+	if _, ok := cmp.(Canonicalizer); ok {
+		mm.actual = map[string]string{}
+	}
+	return mm
 }
 
 // Put stores a private copy of v under k.
 func (m *Map) Put(k, v []byte) {
-	if _, ok := m.m[string(k)]; !ok {
+	c := m.ck(k)
+	if _, ok := m.m[c]; !ok {
 		m.sorted = nil
 	}
-	m.m[string(k)] = append([]byte{}, v...)
+	m.m[c] = append([]byte{}, v...)
+	if m.actual != nil {
+		m.actual[c] = string(k)
+	}
 }
 
 // Delete removes k.
 func (m *Map) Delete(k []byte) {
-	if _, ok := m.m[string(k)]; ok {
+	c := m.ck(k)
+	if _, ok := m.m[c]; ok {
 		m.sorted = nil
-		delete(m.m, string(k))
+		delete(m.m, c)
+		if m.actual != nil {
+			delete(m.actual, c)
+		}
 	}
 }
 
 // Get returns the value and whether the key is live.
 func (m *Map) Get(k []byte) ([]byte, bool) {
-	v, ok := m.m[string(k)]
+	v, ok := m.m[m.ck(k)]
 	return v, ok
 }
 
@@ -54,6 +77,12 @@ func (m *Map) Clone() *Map {
 	n := &Map{Cmp: m.Cmp, m: make(map[string][]byte, len(m.m))}
 	for k, v := range m.m {
 		n.m[k] = v
+	}
+	if m.actual != nil {
+		n.actual = make(map[string]string, len(m.actual))
+		for k, v := range m.actual {
+			n.actual[k] = v
+		}
 	}
 	if m.sorted != nil {
 		n.sorted = m.sorted // immutable once built
@@ -89,7 +118,7 @@ func (m *Map) Range(start, limit []byte) []KV {
 	}
 	out := make([]KV, 0, hi-lo)
 	for _, k := range ks[lo:hi] {
-		out = append(out, KV{K: []byte(k), V: m.m[k]})
+		out = append(out, KV{K: m.akey(k), V: m.m[k]})
 	}
 	return out
 }
@@ -99,7 +128,7 @@ func (m *Map) Keys() [][]byte {
 	ks := m.keys()
 	out := make([][]byte, len(ks))
 	for i, k := range ks {
-		out[i] = []byte(k)
+		out[i] = m.akey(k)
 	}
 	return out
 }
